@@ -219,6 +219,39 @@ theorem C28_key_insert_exact (E : Env) (S : Spec) (hS : SpecOK S) (s : State) (k
       KeyInsertEffect S s.buffer s'.buffer (encodeRune key.rune.toNat) :=
   key_insert_spec E S hS s key h hp hne hbs hg
 
+/-- "Typed consecutively" (edit:abbr: an abbreviation expands when "typed in
+full and consecutively, without being interrupted by the use of other editing
+functionalities, such as cursor movements"): a key that finds the buffer —
+content OR dot — different from what the previous insertion left behind is
+handled exactly as on a code area whose insertion run has been reset.  Hence
+the characters typed before a cursor movement never count towards an
+abbreviation, and `expandSimpleAbbr`'s `Content[:Dot-len(abbr)]` is only ever
+evaluated for text that was inserted immediately left of the dot.
+(Seeded change C28-inserts-not-reset-by-cursor-move compared the contents only.) -/
+theorem C28_interruption_restarts_run (E : Env) (S : Spec) (s : State) (key : Key)
+    (hp : s.pasting = false) (hne : s.last ≠ s.buffer) :
+    handleKeyEvent E S s key = handleKeyEvent E S (resetInserts s) key := by
+  have hp' : (resetInserts s).pasting = false := hp
+  have hb : (resetInserts s).buffer = s.buffer := rfl
+  have hrr : resetInserts (resetInserts s) = resetInserts s := rfl
+  have h4 : (if (resetInserts s).last ≠ s.buffer then resetInserts s else resetInserts s) = resetInserts s := by
+    split <;> rfl
+  unfold handleKeyEvent
+  simp only [hp, hp', hb, hrr, h4, if_pos hne, Bool.false_eq_true, if_false]
+
+/-- non-vacuity, and the documentation's own example: with `||` ↦ ` or `
+configured, `|`, cursor left, `|` leaves `||` with the dot in the middle … -/
+example : ((·.buffer) <$> runEvents ⟨fun _ => false, fun _ => false, fun _ => false, fun _ => true, fun _ => false, fun _ => 1⟩
+      ⟨[([0x7c, 0x7c], [0x20, 0x6f, 0x72, 0x20])], [], [], false, id⟩ (initState ⟨[], 0⟩)
+      [.key ⟨124, 0⟩, .cmd (.move .left), .key ⟨124, 0⟩])
+    = Res.ok ⟨[0x7c, 0x7c], 1⟩ := by decide +kernel
+
+/-- … while `|`, `|` typed consecutively expands. -/
+example : ((·.buffer) <$> runEvents ⟨fun _ => false, fun _ => false, fun _ => false, fun _ => true, fun _ => false, fun _ => 1⟩
+      ⟨[([0x7c, 0x7c], [0x20, 0x6f, 0x72, 0x20])], [], [], false, id⟩ (initState ⟨[], 0⟩)
+      [.key ⟨124, 0⟩, .key ⟨124, 0⟩])
+    = Res.ok ⟨[0x20, 0x6f, 0x72, 0x20], 4⟩ := by decide +kernel
+
 /-- Every event (key, paste marker, builtin command) keeps the invariant: the
 buffer stays valid UTF-8 with the dot inside it on a character boundary. -/
 theorem C28_step_preserves_invariant (E : Env) (S : Spec) (hS : SpecOK S) (s : State) (ev : Event) (h : Inv s) :
